@@ -7,7 +7,9 @@
 From Verif Require Import Base.GoSem Box.BoxGen Box.TableGrid Box.TableGridSpec Box.TableGridProofs
   Box.BoxWf Box.MakeBoxSpec Box.BoxInv Box.TableFixupProofs Box.TableFixupTotal Box.FlexGridProofs Box.InlineInBlockProofs
   Box.BlockInInlineProofs Box.BlockInInlineTotal Box.BoxSim Box.BoxWfProofs Box.BoxTotal Box.ElementsProofs
-  Box.TableGridOverlap Box.TableGridOverlapBox Box.ElementGen Box.ElementGenProofs.
+  Box.TableGridOverlap Box.TableGridOverlapBox Box.ElementGen Box.ElementGenProofs
+  Box.RunInv Box.RunSim Box.RunFlexGrid Box.RunWf Box.RunIIB Box.RunBII Box.RunBIITotal Box.RunTableB Box.RunTableTotal
+  Box.RunningProofs.
 From Coq Require Import ZArith List Bool.
 Import ListNotations.
 Open Scope Z_scope.
@@ -276,16 +278,111 @@ Example C09_example_footnotes :
   e2b d = ([0; 1; 6], [[5]; [4]]) /\ hidden_ids d = [2; 3] /\ NoDup (all_ids d).
 Proof. split; [reflexivity|split; [reflexivity|]]. repeat constructor; cbn; intuition discriminate. Qed.
 
-(* what remains a statement: the same with position:running() elements in the
-   document (the model and the tie handle them: running subtrees are skipped
-   by all passes; the proofs assume there is none).  Checked on every run by
-   Check/C09.v. *)
+(* the same with position:running() elements in the document (running subtrees
+   are skipped by all passes and opaque for wf; Check/C09.v checks it on every
+   run).  The statement as first written: *)
 Definition iok_running (b : box) : bool :=
   (0 <=? a_colspan (at_ b)) && (0 <=? a_rowspan (at_ b)) && mut_ok b && negb (is_wrap (mu b)) &&
   negb (is LineT b) && (parent_t (ty b) || no_kids (ch b)).
 Definition C09_create_anonymous_wf_statement : Prop :=
   forall t, tree iok_running t = true -> block_flow_t (result_ty (ty t)) = true ->
   exists t', create_anonymous t = Ok t' /\ wf_root t' = true.
+
+(* As stated it is FALSE of the model, for two reasons.
+   (1) Colspan/Rowspan FIELDS are constrained on cells only (`mut_ok`), but
+   wrapTable's grid assignment also runs over the unprocessed children of a
+   running row / row group, whatever their type, and `[:rowspan-1]`
+   (build.go:1267) panics on a negative Rowspan field.  Not reachable on /repo
+   (the fields are 0 on non-cells; Check/C09.v feeds them as dumped): a gap of
+   the hypothesis, not a defect. *)
+Theorem C09_create_anonymous_wf_refuted :
+  exists t, tree iok_running t = true /\ block_flow_t (result_ty (ty t)) = true /\
+            create_anonymous t = Panic 1267%N.
+Proof. exact create_anonymous_running_refuted. Qed.
+Print Assumptions C09_create_anonymous_wf_refuted.
+
+(* (2) real, = known finding C09/running-root-element: position: running() on
+   a root element with display: table.  Every pass returns the running root as
+   it is: a bare table box that is not in a wrapper is the root. *)
+Theorem C09_create_anonymous_wf_running_root_refuted :
+  exists t, tree iok_running t = true /\ tree sp t = true /\ block_flow_t (result_ty (ty t)) = true /\
+            create_anonymous t = Ok t /\ wf_root t = false.
+Proof. exact create_anonymous_running_root_refuted. Qed.
+Print Assumptions C09_create_anonymous_wf_running_root_refuted.
+
+Corollary C09_create_anonymous_wf_statement_false : ~ C09_create_anonymous_wf_statement.
+Proof.
+  intros H. destruct create_anonymous_running_refuted as (t & H1 & H2 & H3).
+  destruct (H t H1 H2) as (t' & E & _). rewrite H3 in E. discriminate.
+Qed.
+Print Assumptions C09_create_anonymous_wf_statement_false.
+
+(* The statement under the weakest side conditions excluding the two
+   witnesses -- every box has Colspan, Rowspan fields >= 0 (`sp`), the root is
+   not a running table (`rtab`) -- holds: CreateAnonymousBox returns (no
+   panic, no fuel exhaustion) a well-formed tree for every document, running
+   elements anywhere else included. *)
+Theorem C09_create_anonymous_wf_running : forall t,
+  tree iok_running t = true -> tree sp t = true -> rtab t = false ->
+  block_flow_t (result_ty (ty t)) = true ->
+  exists t', create_anonymous t = Ok t' /\ wf_root t' = true.
+Proof. exact create_anonymous_wf_running. Qed.
+Print Assumptions C09_create_anonymous_wf_running.
+
+Example C09_running_example :
+  tree iok_running running_witness0 = true /\ tree sp running_witness0 = true /\
+  exists t', create_anonymous running_witness0 = Ok t' /\ wf_root t' = true.
+Proof. exact create_anonymous_running_ok. Qed.
+
+(* The passes with running elements.  Invariants (Box/RunInv.v):
+   `treeR (cokR k)` = the stage-k invariant at every box that is not inside a
+   running box; a running box is opaque (returned unchanged by the passes:
+   `simR`), its parent treats it by its type, a running bare table may stay
+   among flow children, fields stay >= 0 below running boxes.  `iokS` = what
+   elementToBox delivers (iok_running) with fields >= 0 on every box. *)
+Theorem C09_table_fixup_wf_running : forall t t',
+  tree iokS t = true -> anonymous_table_boxes t = Ok t' ->
+  fixedR 1 t' = true /\ ty t' = (if running t then ty t else result_ty (ty t)).
+Proof. exact atb_typedR. Qed.
+Print Assumptions C09_table_fixup_wf_running.
+
+Theorem C09_table_fixup_total_running : forall t,
+  tree iokS t = true -> exists t', anonymous_table_boxes t = Ok t'.
+Proof. exact atb_totalR. Qed.
+Print Assumptions C09_table_fixup_total_running.
+
+Theorem C09_flex_grid_items_blockified_running : forall t,
+  treeR (cokR 1) t = true -> treeR (cokR 3) (grid_boxes (flex_boxes t)) = true.
+Proof. exact flex_grid_items_blockifiedR. Qed.
+Print Assumptions C09_flex_grid_items_blockified_running.
+
+Theorem C09_inline_in_block_wf_running : forall t t',
+  treeR (cokR 3) t = true -> inline_in_block t = Ok t' -> treeR (cokR 4) t' = true /\ simR t t'.
+Proof. exact iib_typedR. Qed.
+Print Assumptions C09_inline_in_block_wf_running.
+
+Theorem C09_inline_in_block_total_running : forall t,
+  treeR (cokR 3) t = true -> exists t', inline_in_block t = Ok t'.
+Proof. exact iib_totalR. Qed.
+Print Assumptions C09_inline_in_block_total_running.
+
+(* BlockInInline is called on running boxes (returned as they are) or on
+   boxes that are neither inline nor line boxes (`bii_arg`) *)
+Theorem C09_block_in_inline_wf_running : forall fuel t t',
+  treeR (cokR 4) t = true -> bii_arg t ->
+  block_in_inline fuel t = Ok t' -> treeR (cokR 5) t' = true /\ simR t t'.
+Proof. exact bii_typedR. Qed.
+Print Assumptions C09_block_in_inline_wf_running.
+
+Theorem C09_block_in_inline_total_running : forall fuel t,
+  treeR (cokR 4) t = true -> bii_arg t -> (S (size t) <= fuel)%nat ->
+  exists t', block_in_inline fuel t = Ok t'.
+Proof. exact bii_totalR. Qed.
+Print Assumptions C09_block_in_inline_total_running.
+
+Theorem C09_stage5_is_wf_running : forall t, treeR (cokR 5) t = true -> wf t = true.
+Proof. exact treeR_cok5_wf. Qed.
+Print Assumptions C09_stage5_is_wf_running.
 
 (* the hypotheses are inhabited: a table cell and a block inside an inline box *)
 Definition example_doc : box :=
